@@ -49,6 +49,30 @@ StructuralKinds == {"rename_structure", "rename_property", "property_type", "fli
 \* edits the property statement does not speak about (annotations): no verdict demanded
 AnnotationKinds == {"documentation", "since", "proposed", "deprecated", "typeName", "supportsCustomValues"}
 
+(***************************************************************************)
+(* Grammar edits.  The alphabet of one-position edits is not a hand-made   *)
+(* list: it is read off the metamodel schema itself (every key of every    *)
+(* definition x every generic operation on the value found there), so an   *)
+(* equality method that forgets a field, or looks at only part of a list,  *)
+(* has a case here whichever field or list it is.                          *)
+(***************************************************************************)
+Schema == JsonDeserialize(IF "LSP_SCHEMA" \in DOMAIN IOEnv THEN IOEnv.LSP_SCHEMA ELSE "/repo/generator/lsp.schema.json")
+Defs == {dn \in DOMAIN Schema.definitions : "properties" \in DOMAIN Schema.definitions[dn]}
+KeysOf(dn) == DOMAIN Schema.definitions[dn].properties
+GOps == {"change", "drop", "add", "rekind", "append", "prepend", "drop_last", "drop_first", "swap_ends", "clear", "dup_last", "change_last"}
+\* keys the property statement does not speak about for equality (annotations): no verdict demanded
+AnnotationKeys == {"documentation", "since", "sinceTags", "proposed", "deprecated", "typeName", "supportsCustomValues"}
+
+(***************************************************************************)
+(* What the schema cannot say and the model layer checks on purpose: the   *)
+(* values of an enumeration are of its base type.  A grammar edit that     *)
+(* breaks this (changing the base under the values, or a value under the   *)
+(* base) yields a document for which no verdict is demanded.               *)
+(***************************************************************************)
+EnumOK(en) == LET want == IF en.f.type.f.name.s = "string" THEN "str" ELSE "int" IN
+              \A i \in DOMAIN en.f.values.a : en.f.values.a[i].f.value.k = want
+WellFormedDoc(d) == "enumerations" \in DOMAIN d.f => \A i \in DOMAIN d.f.enumerations.a : EnumOK(d.f.enumerations.a[i])
+
 BadKinds == {"missing_required_key", "wrong_json_type", "undeclared_key", "bad_enum_string"}
 Targets == {"request", "notification", "structure", "property", "enumeration", "enumItem", "typeAlias", "type", "metaData"}
 Plugins == {"python", "rust", "dotnet", "testdata", "probe"}
@@ -61,17 +85,20 @@ Cases == {[c |-> "eq", kind |-> k] : k \in StructuralKinds \cup AnnotationKinds 
          \* the invalid file alone, or first of two files (EVERY model file is validated before anything else happens)
          \cup {[c |-> "gate", kind |-> k, target |-> t, plugin |-> p, position |-> pos] :
                  k \in BadKinds, t \in Targets, p \in Plugins, pos \in {"only", "first", "last"}}
-         \cup {[c |-> "load", files |-> n] : n \in {"full", "trimmed", "two", "three", "extension"}}
+         \cup {[c |-> "eqg", def |-> dn, key |-> ky, op |-> o] : dn \in Defs, ky \in UNION {KeysOf(x) : x \in Defs}, o \in GOps}
+         \cup {[c |-> "load", files |-> n] : n \in {"full", "trimmed", "two", "three", "extension", "zoo"}}
          \* several operations on the SAME in-memory documents in one process: Load; Load; Eq; Load(first only)
          \cup {[c |-> "session", files |-> n] : n \in {"two", "three", "extension"}}
 Init == svCase \in Cases /\ svL = 0
 Next == UNCHANGED <<svCase, svL>>
-EmitCase == PrintT("@K " \o ToJson(svCase))
+CaseOK(c) == c.c = "eqg" => c.key \in KeysOf(c.def)
+EmitCase == IF CaseOK(svCase) THEN PrintT("@K " \o ToJson(svCase)) ELSE TRUE
 
 (***************************************************************************)
 (* Trace mode.                                                              *)
 (***************************************************************************)
 Trace == JsonDeserialize(IOEnv.MODEL_TRACE)
+Zoo == JsonDeserialize(IOEnv.MODEL_ZOO)          \* the base document of every grammar edit
 
 Fails(ev) ==
     CASE ev.e = "Load" ->
@@ -81,6 +108,16 @@ Fails(ev) ==
             (IF ev.res \notin {"T", "F"} THEN {"E_total"} ELSE {})
             \cup (IF JEq(ev.a, ev.b) /\ ev.res = "F" THEN {"E_same"} ELSE {})
             \cup (IF ev.kind \in StructuralKinds /\ ~JEq(Canon(ev.a), Canon(ev.b)) /\ ev.res = "T" THEN {"E_diff"} ELSE {})
+      [] ev.e = "LoadG" ->     \* the edited document loaded on its own and read back
+            IF ~WellFormedDoc(ev.b) THEN {}
+            ELSE IF ~ev.ok THEN {"L_raise"}
+            ELSE IF JEq(Canon(ev.readback), Canon(ev.b)) THEN {} ELSE {"L_lossless"}
+      [] ev.e = "EqG" ->       \* zoo == edited / edited == zoo / zoo != edited
+            LET differs == ~JEq(Canon(Zoo), Canon(ev.b)) IN
+            (IF {ev.ab, ev.ba, ev.ne} \subseteq {"T", "F"} THEN {} ELSE {"E_total"})
+            \cup (IF ~differs /\ ("F" \in {ev.ab, ev.ba} \/ ev.ne = "T") THEN {"E_same"} ELSE {})
+            \cup (IF differs /\ ev.key \notin AnnotationKeys /\ ("T" \in {ev.ab, ev.ba} \/ ev.ne = "F") THEN {"E_diff"} ELSE {})
+            \cup (IF ev.key \in KeysOf(ev.def) THEN {} ELSE {"E_case"})
       [] ev.e = "Gate" ->
             IF ev.schema_invalid
             THEN (IF ev.exit = 0 THEN {"G_exit"} ELSE {})
